@@ -302,7 +302,7 @@ Definition make_private (c : cfg) (g : gst) (i : N) (s : sentry) (shareable : bo
 (* MemStore::copyFromShm seen from a reader entry: returns the updated entry and whether the copy is in sync *)
 Definition copy_from_M (g : gst) (s : sentry) : gst * sentry * bool :=
   let m := M g in
-  let s1 := s_with_data s (ever m) (s_hdr s || (0 <? elen m)) (elen m) (s_st s) (s_bad s) in
+  let s1 := s_with_data s (ever m) true (elen m) (s_st s) (s_bad s) in   (* the stored bytes begin with the reply header *)
   if e_complete m then
     if halted m then (g, s1, false)
     else (setM g (closeForReading m), s_with_m (s_with_data s1 (s_v s1) (s_hdr s1) (s_len s1) Ok false) MDone, true)
@@ -617,7 +617,10 @@ Fixpoint gc (c : cfg) (g : gst) (l : list sentry) (i : N) : gst :=
 Definition do_fin (g : gst) (ci : N) : gst :=
   match nthN ci (cs g) with
   | Some cl => match c_st cl with
-               | CAtt => setC g ci (mkC (c_w cl) CFin (c_e cl) (c_init cl) (c_hdr cl) (c_ver cl) (c_len cl) (c_end cl) (c_bad cl))
+               | CAtt => match c_end cl with
+                         | Pend => g     (* a transaction does not end before its response did *)
+                         | _ => setC g ci (mkC (c_w cl) CFin (c_e cl) (c_init cl) (c_hdr cl) (c_ver cl) (c_len cl) (c_end cl) (c_bad cl))
+                         end
                | _ => g
                end
   | None => g
@@ -716,6 +719,7 @@ Definition run_scen (c : cfg) (s : scen) : gst * N :=
            | None => run c g (EData 1 total :: EEnd 1 :: sy ++ sy)
            | Some k => run c g (EData 1 (k - sc_first s) :: ECut 1 :: sy ++ sy)
            end in
+  let g := run c g (fins 0 (1 + nA + nB)) in     (* the clients whose response ended are gone before a re-forwarded request is answered *)
   let g := refetch c nw tot g in
   let g := run c g (fins 0 (1 + nA + nB)) in
   let fix phaseC (g : gst) (base : N) (ws : list N) : gst :=
